@@ -67,6 +67,17 @@ def conversations(tier):
                       'conns': [{'status': {'mode': 'reply',
                                             'json': status_json(proto)}},
                                 {'login': [['success']], 'play': pl}]})
+        # the same negotiation on an object that has already completed a
+        # plain status query: nothing remembered from that conversation may
+        # change how this one ends
+        convs.append({'name': 'status-call-then[status-then-login[status]]'
+                              '/%d' % proto,
+                      'call': 'connect', 'allowed': [proto, other],
+                      'initial': other, 'fault_conn': 0,
+                      'prior_status': True,
+                      'conns': [{'status': {'mode': 'reply',
+                                            'json': status_json(proto)}},
+                                {'login': [['success']], 'play': pl}]})
         third = next(q for q in (340, 578, 107, 47, 757)
                      if q not in (proto, other))
         convs.append({'name': 'status-then-login[status,default-outside-'
@@ -109,16 +120,19 @@ def conversations(tier):
 
 
 def make_scenario(conv, k, variant=None):
+    base = 1 if conv.get('prior_status') else 0
+    prior = [{'status': {'mode': 'reply', 'json': STATUS_JSON}}] \
+        if base else []
     sc = {'conv': conv['name'], 'call': conv['call'],
           'allowed': conv['allowed'], 'initial': conv.get('initial'),
           'ping': conv.get('ping', False), 'fault_conn': conv['fault_conn'],
-          'cut': k,
-          'server': {'conns': copy.deepcopy(conv['conns'])},
+          'cut': k, 'base': base,
+          'server': {'conns': prior + copy.deepcopy(conv['conns'])},
           'net': {'latency_us': 200, 'eof_read_limit': EOF_READ_LIMIT},
           'sched': {'granularity': 'io', 'max_steps': 100000},
           'rand_seed': 12345}
     if k is not None:
-        sc['server']['conns'][conv['fault_conn']]['cut'] = k
+        sc['server']['conns'][base + conv['fault_conn']]['cut'] = k
         if conv.get('cut_every_status'):
             # a server that keeps failing the same way on reconnection
             sc['server']['status_cut'] = k
@@ -127,7 +141,8 @@ def make_scenario(conv, k, variant=None):
         mode = variant.pop('cut_mode', None)
         if mode:
             # abortive close (RST) instead of FIN at the crash point
-            sc['server']['conns'][conv['fault_conn']]['cut_mode'] = mode
+            sc['server']['conns'][base + conv['fault_conn']]['cut_mode'] = \
+                mode
             sc['cut_mode'] = mode
         sc['net'].update(variant)
     return sc
@@ -145,7 +160,7 @@ def plan(tier):
             raise common.HarnessError(
                 'reference conversation %s does not complete: %r %r'
                 % (conv['name'], res.violations, w.sim.end_state))
-        app = w.server.apps[conv['fault_conn']]
+        app = w.server.apps[sc['base'] + conv['fault_conn']]
         n = app.conn.s2c_sent
         info[conv['name']] = {'n': n, 'frames': app.out_frames}
         for k in range(n + 1):
@@ -210,12 +225,24 @@ def _execute(scenario, tape, want_world=False):
                           handle_exit=lambda: exits.append(w.sim.seq), **kw)
 
         def on_packet(p):
-            pkts.append((len(w.net.conns) - 1, p.id, p.packet_name))
+            pkts.append((len(w.net.conns) - 1 - st.get('off', 0), p.id,
+                         p.packet_name))
         conn.register_packet_listener(on_packet, Packet, early=True)
         st.update(conn=conn, errs=errs, exits=exits, pkts=pkts,
                   status=status, pings=pings)
 
         def user():
+            if scenario.get('base'):
+                r0 = w.api('status', conn.status, handle_status=False,
+                           handle_ping=False)
+                w.wait_until(lambda: common.networking_quiet(conn) and
+                             common.all_net_done(w.sim), 30000000)
+                if not r0.ok or errs:
+                    raise common.HarnessError(
+                        'the preceding status query failed: %r %r'
+                        % (r0.exc, errs[:1]))
+                del errs[:], exits[:], pkts[:]
+                st['off'] = 1
             if scenario['call'] == 'status':
                 r = w.api('status', conn.status, handle_status=status.append,
                           handle_ping=pings.append if scenario['ping']
@@ -287,7 +314,7 @@ def check(scenario, w, st, res):
     complete = [f for f in frames if f[1] <= k]
     kinds_done = [f[2] for f in complete]
     errs, exits = st['errs'], st['exits']
-    apps = w.server.apps
+    apps = w.server.apps[scenario.get('base', 0):]
     # safety: only completely sent packets are delivered
     delivered = [p for p in st['pkts'] if p[0] == fc]
     ob()
